@@ -3,10 +3,21 @@
 Tie: as C03 (real REPEX_state vs Lean state machine, state-for-state incl. traj_data fractions and the
 data-file rows).  Property predicates are evaluated on what the real code WROTE: infretis_data.txt rows
 and restart.toml [current.frac] after every completed step.
+
+Second family ("across restarts"): the real `scheduler()` with the lattice engine of the C08 support
+(harness/c08_support/sim.py: synchronous runner, audit-hook tracer, fault injection) is killed with
+`os._exit` before / after / half-way through EVERY file effect of `treat_output` (path store, deletion
+of old files, data-row append, restart.toml temp write, os.replace) of an accepted step, an accepted
+zero swap (two rows) and a rejected step; then the real `setup_config('restart.toml')` (incl.
+`clean_data_file`) restarts and the run continues to N.  The C04 law is evaluated on the files on disk
+after the restart's clean-up and at the end of the continued run.
 """
 from __future__ import annotations
 
+import os
 import random
+import shutil
+import tempfile
 from fractions import Fraction
 
 import repex_tie as T
@@ -114,6 +125,249 @@ def predicates(ctx, sim, label):
         ctx.fail("C04:sampler-raised", f"{type(sim.error).__name__}: {sim.error}", {"history": label})
 
 
+# ----------------------------------------------------------------------------------------------
+# stops inside treat_output, restart, continue: the law on the files on disk
+# ----------------------------------------------------------------------------------------------
+CRASH_N = 8          # step target of the crash histories
+
+
+def disk_read(root):
+    """(restart record, data rows) as the files say; None if there is no readable restart.toml"""
+    import tomli
+    rp = os.path.join(root, "restart.toml")
+    if not os.path.isfile(rp):
+        return None
+    try:
+        with open(rp, "rb") as f:
+            cfg = tomli.load(f)
+        cur = cfg["current"]
+        rec = {"cstep": int(cur["cstep"]), "active": [int(a) for a in cur["active"]],
+               "traj_num": int(cur["traj_num"]), "size": int(cur["size"]),
+               "frac": {int(k): [float(x) for x in v] for k, v in cur.get("frac", {}).items()},
+               "steps": int(cfg["simulation"]["steps"]), "workers": int(cfg["runner"]["workers"]),
+               "data_file": cfg["output"].get("data_file", "./infretis_data.txt")}
+    except Exception:  # noqa: BLE001  (an unreadable restart file is C08's subject)
+        return None
+    rows, torn = [], 0
+    dp = os.path.join(root, rec["data_file"])
+    if os.path.isfile(dp):
+        with open(dp, "rb") as f:
+            raw = f.read().decode("utf8", "replace")
+        lines = raw.split("\n")
+        if lines and lines[-1] == "":
+            lines.pop()
+        elif lines:
+            torn += 1
+            lines.pop()           # unterminated last line: not a row
+        for ln in lines:
+            if ln.startswith("#") or not ln.strip():
+                continue
+            toks = ln.split()
+            try:
+                pn = int(toks[0])
+                ncol = (len(toks) - 3) // 2
+                if ncol != rec["size"] or len(toks) != 3 + 2 * ncol:
+                    raise ValueError
+                fr = [0.0 if t == "----" else float(t) for t in toks[3:3 + ncol]]
+            except (ValueError, IndexError):
+                torn += 1
+                continue
+            rows.append((pn, fr))
+    rec["torn"] = torn
+    return rec, rows
+
+
+def disk_law(root, n_initial):
+    """the C04 law on the files: list of (signature, message).  One worker: every ensemble was idle at
+    every completed step, so the column totals must equal cstep."""
+    got = disk_read(root)
+    if got is None:
+        return None, []
+    rec, rows = got
+    out = []
+    ncol = rec["size"]
+    pns = [r[0] for r in rows]
+    dup = sorted({p for p in pns if pns.count(p) > 1})
+    if dup:
+        out.append(("row-written-twice", f"paths {dup} have more than one data row (rows {pns})"))
+    both = sorted(set(pns) & set(rec["active"]))
+    if both:
+        out.append(("row-written-while-live", f"paths {both} are active in restart.toml and have a data row"))
+    # every path number handed out so far is either live or was replaced -> exactly one row
+    lost = sorted(p for p in range(rec["traj_num"]) if p not in rec["active"] and p not in pns)
+    if lost:
+        out.append(("replaced-path-has-no-row", f"paths {lost} are neither active nor in the data file "
+                    f"(traj_num {rec['traj_num']}, active {rec['active']}, rows {pns})"))
+    missing = sorted(p for p in rec["active"] if p not in rec["frac"])
+    if missing:
+        out.append(("live-path-without-weights", f"active paths {missing} have no [current.frac] entry"))
+    tot = [0.0] * ncol
+    for _pn, fr in rows:
+        for c in range(ncol):
+            tot[c] += fr[c]
+    for p in rec["active"]:
+        v = rec["frac"].get(p, [])
+        for c in range(min(ncol, len(v))):
+            tot[c] += v[c]
+    if rec["workers"] == 1:
+        bad = [c for c in range(ncol) if abs(tot[c] - rec["cstep"]) > 1e-6]
+        if bad:
+            out.append(("conservation", f"cstep = {rec['cstep']} but data rows + live weights per ensemble = "
+                        f"{[round(t, 6) for t in tot]}"))
+    else:
+        bad = [c for c in range(ncol) if abs(tot[c] - round(tot[c])) > 1e-6 or tot[c] > rec["cstep"] + 1e-6]
+        if bad:
+            out.append(("conservation", f"cstep = {rec['cstep']}: data rows + live weights per ensemble = "
+                        f"{[round(t, 6) for t in tot]} (must be whole numbers <= cstep)"))
+    return rec, out
+
+
+def crash_specs(ctx):
+    rng = ctx.rng
+    base = [
+        {"nintf": 3, "moves": ["sh", "sh", "wf"], "delete_old": True, "delete_old_all": False},
+        {"nintf": 4, "moves": ["sh", "sh", "sh", "wf"], "delete_old": True, "delete_old_all": True},
+    ]
+    if not ctx.quick:
+        base += [
+            {"nintf": 3, "moves": ["sh", "sh", "sh"], "delete_old": False, "delete_old_all": False},
+            {"nintf": 5, "moves": ["sh", "sh", "wf", "wf", "wf"], "delete_old": True, "delete_old_all": False},
+            {"nintf": 4, "moves": ["sh", "sh", "wf", "sh"], "delete_old": False, "delete_old_all": False},
+            {"nintf": 3, "moves": ["sh", "sh", "wf"], "delete_old": True, "delete_old_all": True},
+        ]
+    out = []
+    for b in base:
+        out.append(dict(b, steps=CRASH_N, workers=1, seed=rng.randint(0, 99)))
+    return out
+
+
+def step_table(events):
+    """treat_output's effects grouped by step: {cstep: {"kind": REJ|ACC1|ACC2, "events": [...]}}"""
+    steps = {}
+    for e in events:
+        if "treat_output" not in e.get("tags", []) or e.get("cstep") is None:
+            continue
+        st = steps.setdefault(int(e["cstep"]), {"events": [], "rows": 0})
+        st["events"].append(e)
+        if e["op"] == "open-a" and str(e["path"]).startswith("infretis_data"):
+            st["rows"] += (e.get("text") or "").count("\n")
+    for st in steps.values():
+        st["kind"] = "REJ" if st["rows"] == 0 else ("ACC1" if st["rows"] == 1 else "ACC2")
+        if any(e["op"] in ("remove", "rmdir") for e in st["events"]):
+            st["kind"] += "+del"
+    return steps
+
+
+def crash_points(steps, quick):
+    """(k, mode, kind, op) for every effect of one step of each kind (thorough: up to three of each)"""
+    per_kind = 1 if quick else 3
+    seen = {}
+    pts = []
+    for cs in sorted(steps):
+        st = steps[cs]
+        if cs < 2:                 # the very first restart.toml may not exist yet: C08's subject
+            continue
+        if seen.get(st["kind"], 0) >= per_kind:
+            continue
+        seen[st["kind"]] = seen.get(st["kind"], 0) + 1
+        for e in st["events"]:
+            modes = ["before", "half"] if e["op"] in ("open-w", "open-a") else ["before", "after"]
+            for m in modes:
+                pts.append((e["k"], m, st["kind"], e["op"], str(e["path"]), cs))
+    last = max((e["k"] for st in steps.values() for e in st["events"]), default=None)
+    return pts, seen, last
+
+
+def crash_cases_check(ctx, csim, spec, work, cases):
+    """cases: [(root, info)] of crashed trees.  Restart each with the real setup_config (clean-up only), law;
+    then continue to N, law again.  The two passes are fanned out over forked children."""
+    def rep_of(info):
+        return {"family": "crash", "spec": spec, "k": info["k"], "mode": info["mode"], "ctxseed": ctx.seed}
+
+    def where(info):
+        return (f"killed {info['mode']} effect {info['k']} ({info['op']} {info['path']}) of a {info['kind']} step "
+                f"(cstep {info['cstep']})")
+
+    todo = []
+    for root, info in cases:
+        if disk_read(root) is None:
+            ctx.count(1, crash="no-restart-file")
+        else:
+            todo.append((root, info))
+    res0 = csim.runjobs([{"root": root, "result": f"{work}/{info['tag']}.setup.json", "kind": "restart",
+                          "entry": "restart.toml", "setup_only": True} for root, info in todo])
+    cont = []
+    for (root, info), (_rc, r0) in zip(todo, res0):
+        if r0 is None or r0.get("outcome") != "starts":
+            ctx.count(1, crash="restart-does-not-start")     # C08's subject
+            continue
+        _rec, bad = disk_law(root, spec["nintf"])
+        for sig, msg in bad:
+            ctx.fail(f"C04:crash:{sig}:after-cleanup",
+                     f"{where(info)}, restarted (setup_config + clean_data_file): {msg}", rep_of(info))
+        cont.append((root, info))
+    res1 = csim.runjobs([{"root": root, "result": f"{work}/{info['tag']}.cont.json", "kind": "restart",
+                          "entry": "restart.toml"} for root, info in cont])
+    for (root, info), (_rc, r1) in zip(cont, res1):
+        if r1 is None or r1.get("phase") != "finished":
+            ctx.count(1, crash="continued-run-raises")       # C08 / C05's subject
+            continue
+        rec, bad = disk_law(root, spec["nintf"])
+        if rec is not None and rec["cstep"] != spec["steps"]:
+            ctx.count(1, crash="continued-run-short")
+        for sig, msg in bad:
+            ctx.fail(f"C04:crash:{sig}:continued",
+                     f"{where(info)}, restarted and continued to step {rec['cstep']}: {msg}", rep_of(info))
+        p = info["path"]
+        what = os.path.basename(p).split(".")[0] if p.startswith(("restart", "infretis_data")) else "store"
+        ctx.count(1, crash=f"{info['kind']}:{info['mode']}-{info['op']}-{what}")
+        ctx.distinct(("crash", spec["nintf"], tuple(spec["moves"]), spec["seed"], info["k"], info["mode"]))
+
+
+def crash_family(ctx, only=None):
+    """only = (spec, k, mode): replay of one case"""
+    import c08_support.sim as csim
+    work = tempfile.mkdtemp(prefix="c04crash-", dir="/var/tmp")
+    try:
+        specs = [only[0]] if only else crash_specs(ctx)
+        for si, spec in enumerate(specs):
+            (rc, res), = csim.runjobs([{"root": f"{work}/ref{si}", "result": f"{work}/ref{si}.json",
+                                        "kind": "fresh", "spec": spec}])
+            if res is None or res.get("phase") != "finished":
+                ctx.fail("C04:sampler-raised", f"uninterrupted lattice run did not finish: rc={rc} "
+                         f"{(res or {}).get('error')}", {"family": "crash", "spec": spec, "ctxseed": ctx.seed})
+                continue
+            rec, bad = disk_law(f"{work}/ref{si}", spec["nintf"])
+            for sig, msg in bad:
+                ctx.fail(f"C04:crash:{sig}:uninterrupted", f"uninterrupted run to step {spec['steps']}: {msg}",
+                         {"family": "crash", "spec": spec, "ctxseed": ctx.seed})
+            steps = step_table(res["events"])
+            pts, seen, _ = crash_points(steps, ctx.quick)
+            if only:
+                pts = [p for p in pts if p[0] == only[1] and p[1] == only[2]] or \
+                      [(only[1], only[2], "?", "?", "?", -1)]
+            for kind, cnt in seen.items():
+                ctx.count(0, crash_step_kinds=kind)
+            jobs, infos = [], []
+            for (k, mode, kind, op, path, cs) in pts:
+                tag = f"s{si}k{k}{mode}"
+                jobs.append({"root": f"{work}/{tag}", "result": f"{work}/{tag}.json", "kind": "fresh",
+                             "spec": spec, "crash": {"k": k, "mode": mode}})
+                infos.append({"k": k, "mode": mode, "kind": kind, "op": op, "path": path, "cstep": cs, "tag": tag})
+            results = csim.runjobs(jobs)
+            cases = []
+            for job, info, (rc, r) in zip(jobs, infos, results):
+                if rc != csim.CRASH_RC:
+                    ctx.count(1, crash="crash-point-not-reached")
+                    continue
+                cases.append((job["root"], info))
+            crash_cases_check(ctx, csim, spec, work, cases)
+            for job in jobs:
+                shutil.rmtree(job["root"], ignore_errors=True)
+    finally:
+        shutil.rmtree(work, ignore_errors=True)
+
+
 def one(ctx, params, with_model, outs):
     n_ens, workers, steps, seed, wf, et, acc = params[:7]
     label = f"n_ens={n_ens} workers={workers} steps={steps} seed={seed} wf={wf} eng_types={et} acc_p={acc} ctxseed={ctx.seed}"
@@ -140,6 +394,7 @@ def run(ctx):
         n_ens = rng.randint(5, 8)
         plans.append((n_ens, rng.randint(1, n_ens - 1), rng.randint(40, 100 if ctx.quick else 300), rng.randint(0, 9),
                       rng.random() < 0.5, 1, rng.choice([0.3, 0.7, 0.95]), n_ens <= 5))
+    crash_family(ctx)
     outs = []
     for p in plans:
         one(ctx, p[:7], p[7] and ctx._driver_ok, outs)
@@ -154,12 +409,24 @@ def run(ctx):
     ctx.assumptions += [
         "long-double accumulation compared with tolerance 1e-9 per step / 1e-7 on totals",
         "masked ('----') data-file entries are read as 0 (they are written only for zero fractions)",
-        "restarts: the restore of fractions is covered by theorem restore_frac and by C06's end-to-end runs",
+        "restarts: stops inside treat_output (before/after/half-way every file effect of an accepted step, an accepted "
+        "zero swap and a rejected step), restart with the real setup_config + clean_data_file, continue to N: the law is "
+        "evaluated on restart.toml + data file after the clean-up and at the end (one worker, lattice engine of the C08 "
+        "support); cases in which the restart itself does not start are C08's subject and only counted",
     ]
 
 
 def replay(ctx, obj):
     r = obj.get("replay", {})
+    if r.get("family") == "crash":
+        ctx.seed = r.get("ctxseed", ctx.seed)
+        if "k" in r:
+            crash_family(ctx, only=(r["spec"], r["k"], r["mode"]))
+        else:
+            crash_family(ctx, only=(r["spec"], -1, "before"))
+        for f in ctx.fails:
+            print("still fails:", f["signature"], f["what"])
+        return 1 if ctx.fails else 0
     if not r.get("params"):
         print("no history parameters in this replay file:", r)
         return 1
